@@ -19,9 +19,11 @@ CLAIMS = {
                  'that exist, with their emitted values, whatever the values',
 }
 GOALS = {'quick': ['falsy value possible', 'partial query',
-                   'history inserted out of time order'],
+                   'history inserted out of time order',
+                   'queried variable missing at one time'],
          'thorough': ['falsy value possible', 'partial query',
-                      'history inserted out of time order']}
+                      'history inserted out of time order',
+                      'queried variable missing at one time']}
 STUBS = ['RAMEmitter.saved_data filled directly with raw data (the accessors '
          'under test read it; no orjson boundary crossed)']
 ASSUMPTIONS = ['values: symbolic ints in [-2,2], symbolic booleans, and a choice '
@@ -46,6 +48,9 @@ def jobs(tier):
             out.append(dict(name='shape%s-T%d' % (shape, nt), shape=shape,
                             nt=nt, budget_s=100 if tier == 'quick' else 900,
                             crosscheck=20 if tier == 'thorough' else 0))
+        out.append(dict(name='shape%s-missing' % shape, shape=shape,
+                        nt=3 if tier == 'quick' else 4, part='missing',
+                        budget_s=100 if tier == 'quick' else 600))
     return out
 
 
@@ -61,7 +66,8 @@ def body(ctx, cfg):
     # descending or rotated (merged / late data); alignment is claimed by
     # looking the raw value up under the time the vector names
     base_times = list(range(cfg['nt']))
-    order = ctx.choice('order', 3)
+    missing_only = cfg.get('part') == 'missing'
+    order = 0 if missing_only else ctx.choice('order', 3)
     times = [base_times, base_times[::-1],
              base_times[1:] + base_times[:1]][order]
     if order:
@@ -69,8 +75,8 @@ def body(ctx, cfg):
     raw = {}
     data = {}
     # one falsy/odd kind at one (solver-chosen) time, "z" elsewhere
-    kind_k = ctx.choice('k', len(FALSY))
-    kind_t = ctx.choice('kt', len(times))
+    kind_k = 0 if missing_only else ctx.choice('k', len(FALSY))
+    kind_t = 0 if missing_only else ctx.choice('kt', len(times))
     for t in times:
         data[t] = {}
         for p in paths:
@@ -97,6 +103,8 @@ def body(ctx, cfg):
             return EQ(a, b)
         return type(a) is type(b) and a == b
 
+    if missing_only:
+        return query_missing(ctx, times, paths, data, raw, same)
     # ---- embedded timeseries (function and accessor)
     emitter = RAMEmitter({})
     emitter.saved_data = copy.deepcopy(data)
@@ -161,3 +169,37 @@ def body(ctx, cfg):
             cl.append(leaves <= set(sel))
         ctx.claim('C18.query', AND(cl), sig='query',
                   info=lambda: dict(data=data, query=query, got=got))
+
+
+def query_missing(ctx, times, paths, data, raw, same):
+    # ---- query over a history in which one variable is missing at one time
+    # (solver-chosen): it is returned at exactly the times it was emitted
+    gone_t = times[ctx.choice('gt', len(times))]
+    gone_p = paths[ctx.choice('gp', len(paths))]
+    data2 = copy.deepcopy(data)
+    node = data2[gone_t]
+    for k in gone_p[:-1]:
+        node = node[k]
+    del node[gone_p[-1]]
+    em2 = RAMEmitter({})
+    em2.saved_data = data2
+    got2 = em2.get_data(list(paths))
+    cl = [sorted(got2.keys()) == sorted(times)]
+    for t in times:
+        row = got2.get(t, {})
+        leaves = {}
+
+        def walk2(d, pre=()):
+            for k, v in d.items():
+                if isinstance(v, dict) and v:
+                    walk2(v, pre + (k,))
+                elif not isinstance(v, dict):
+                    leaves[pre + (k,)] = v
+        walk2(row)
+        want = [p for p in paths if not (t == gone_t and p == gone_p)]
+        cl.append(set(leaves) == set(want))
+        cl += [same(leaves[p], raw[(t, p)]) for p in want if p in leaves]
+    ctx.goal('queried variable missing at one time')
+    ctx.claim('C18.query', AND(cl), sig='query-variable-missing-at-a-time',
+              info=lambda: dict(data=data2, missing=(gone_t, gone_p),
+                                got=got2))
